@@ -21,7 +21,7 @@ def sess_concat(seed, sep='\n'):
     import kernpy as kp
     # invisible barlines ('=1-') are barlines: they open measures and are legal cut positions (only data lines are compared)
     r, lines, types = dp.make_doc(seed, 'kern_only', max_rows=22, hidden_bars=(seed % 3 == 0), mid_sigs=False, max_spines=3, mid_comments=False,
-                                  pre_comments=False, post_comments=False, final_bar=0.5, opening_bar=0.5)
+                                  pre_comments=False, post_comments=(seed % 2 == 1), final_bar=0.5, opening_bar=0.5)   # every other score ends with '!!' lines after '*-'
     texts = [session.line_text(e) for e in lines]
     bar_idx = [i for i, e in enumerate(lines) if e['ev'] == 'row' and e['cells'][0]['k'] == 'bar' and i > 0]
     cutsets = [list(c) for n in range(0, 6) for c in itertools.combinations(bar_idx, n)]
